@@ -15,6 +15,8 @@ from lib import asmgen, asmsrc, common, xgen, xref, xrun
 from lib.common import Verdict
 
 ARGFORMS = ["-o F S", "S -o F", "--output F S", "S --output F", "default"]
+# options that add a report but are not "... only" display modes: the binary is still to be written
+XCMP_EXTRA_FORMS = ["--memory-info S -o F", "S --output F --memory-info", "S --memory-info"]
 OUTNAMES = ["out.bin", "sub dir/o ut.bin", "x", "deep/er/path.img"]
 SENTINEL = b"SENTINEL-DO-NOT-TOUCH\n"
 
@@ -50,7 +52,7 @@ def invoke(cli, tool, srcname, src, form, outname, prefill, stdin=b""):
     """-> dict(rc, stdout, stderr, new, changed, outpath_rel)"""
     d = common.scratch("c14")
     open(os.path.join(d, srcname), "wb").write(src)
-    outrel = "a.out" if form == "default" else outname
+    outrel = "a.out" if (form == "default" or " F" not in " " + form) else outname
     if os.path.dirname(outrel):
         os.makedirs(os.path.join(d, os.path.dirname(outrel)), exist_ok=True)
     if prefill:
@@ -66,6 +68,8 @@ def invoke(cli, tool, srcname, src, form, outname, prefill, stdin=b""):
             args.append(tok)
     if form == "default":
         args = [srcname]
+    elif "F" not in form.split():
+        args = [srcname if t == "S" else t for t in form.split()]
     try:
         r = subprocess.run([os.path.join(cli, tool)] + args, cwd=d, input=stdin, stdout=subprocess.PIPE, stderr=subprocess.PIPE, timeout=120)
         rc, so, se = r.returncode, r.stdout, r.stderr
@@ -259,7 +263,7 @@ def make_items(tier, rnd):
         if not o["ok"] and o["errtype"] not in ("Error", "std::exception"):
             continue
         items.append({"kind": "xcmp", "srcname": rnd.choice(["p.x", "a b.x"]), "src": s, "accepted": o["ok"], "located": o.get("located"),
-                      "image": common.unhex(o["file"]) if o["ok"] else None, "form": rnd.choice(ARGFORMS), "outname": rnd.choice(OUTNAMES),
+                      "image": common.unhex(o["file"]) if o["ok"] else None, "form": rnd.choice(ARGFORMS + XCMP_EXTRA_FORMS), "outname": rnd.choice(OUTNAMES),
                       "prefill": rnd.random() < 0.5})
         if rnd.random() < 0.5:
             ex = None
